@@ -16,8 +16,8 @@ def NOT_REPRODUCED(msg=''):
 import tempfile, os
 from svgpathtools import wsvg, svg2paths2, Document
 from svgpathtools.svg_io_sax import SaxDocument
-paths = [Path(Line((-9-8j), (-9-9j))), Path(QuadraticBezier((-9+0j), 0j, (-9-9j)))]
-attrs = [{'stroke': 'red', 'fill': 'none', 'xml:space': 'preserve'}, {'stroke-width': '2.5', 'id': 'second one', 'stroke': '#00ff00'}]; svg_attrs = {'width': '300px', 'height': '200px', 'viewBox': '0 0 30 20'}; writer = 'Document'; reader = 'SaxDocument'
+paths = [Path(Line((-9-8j), (-9-9j))), Path(), Path(QuadraticBezier((-9+0j), 0j, (-9-9j)))]
+attrs = [{'stroke': 'red', 'fill': 'none', 'xml:space': 'preserve'}, {'stroke-width': '2.5', 'id': 'second one', 'stroke': '#00ff00'}, {'stroke': 'red', 'fill': 'none', 'xml:space': 'preserve'}]; svg_attrs = {'width': '300px', 'height': '200px', 'viewBox': '0 0 30 20'}; writer = 'Document'; reader = 'svg2paths2'
 fd, fn = tempfile.mkstemp(suffix='.svg'); os.close(fd)
 try:
     if writer == 'wsvg':
